@@ -109,7 +109,29 @@ def main(argv=None):
             return 1
         print('not reproduced: file is structurally valid')
         return 0
-    if kind in ('point', 'surface', 'deck'):
+    if kind == 'bc':
+        from . import deck as dk
+        from .props import c16
+        deck = dk.from_json(case['deck_model'])
+        from .ratfn import RatFn
+        P = (RatFn.var('x'), RatFn.var('y'), RatFn.var('z'))
+        pbs = c16.bc_problems(deck, t4, None, P, t4sem.Ctx())
+        if pbs:
+            print('REPRODUCED (%s): ' % c16.classify(pbs) + '; '.join(p_[1] for p_ in pbs[:4]))
+            return 1
+        print('not reproduced: boundary conditions are consistent with the flagged cards')
+        return 0
+    if kind == 'deck':
+        from . import deckref
+        P = tuple(fr(v) for v in case['point'])
+        bad = deckref.replay_compare(case, t4, P)
+        pb = t4sem.validate(t4)
+        if bad:
+            print('REPRODUCED at point %s:\n  ' % (case['point'],) + '\n  '.join(bad))
+            return 1
+        print('not reproduced: written geometry agrees with the reference at %s' % (case['point'],))
+        return 0
+    if kind in ('point', 'surface'):
         P = tuple(fr(v) for v in case['point'])
         ctx = t4sem.Ctx(symbolic=False)
         ev = t4sem.Evaluator(t4, P, ctx)
